@@ -723,3 +723,163 @@ func CheckCoins(r *sim.Rand, rep Reporter) {
 		}
 	}
 }
+
+// ---- DecCoins ---------------------------------------------------------------------------------------
+
+type dcmodel map[string]*big.Int // denom -> scaled (x10^18) amount
+
+func genDecCoins(r *sim.Rand) (sdk.DecCoins, dcmodel) {
+	m := dcmodel{}
+	n := r.Intn(len(denoms) + 1)
+	for i := 0; i < n; i++ {
+		d := denoms[r.Intn(len(denoms))]
+		var amt *big.Int
+		switch r.Intn(4) {
+		case 0:
+			amt = big.NewInt(1) // 10^-18
+		case 1:
+			amt = new(big.Int).Mul(big.NewInt(int64(1+r.Intn(9))), prec)
+		default:
+			amt = new(big.Int).Add(GenBig(r, uint(8+r.Intn(120)), false), one)
+		}
+		m[d] = amt
+	}
+	return toDecCoins(m), m
+}
+
+func toDecCoins(m dcmodel) sdk.DecCoins {
+	var ds []string
+	for d, a := range m {
+		if a.Sign() != 0 {
+			ds = append(ds, d)
+		}
+	}
+	sort.Strings(ds)
+	out := sdk.DecCoins{}
+	for _, d := range ds {
+		out = append(out, sdk.DecCoin{Denom: d, Amount: decOf(m[d])})
+	}
+	return out
+}
+
+func dcStr(c sdk.DecCoins) string {
+	s := "["
+	for i, x := range c {
+		if i > 0 {
+			s += ","
+		}
+		s += x.Amount.String() + x.Denom
+	}
+	return s + "]"
+}
+
+func dcCanonical(c sdk.DecCoins, allowNeg bool) string {
+	for i, x := range c {
+		if x.Amount.IsZero() {
+			return "zero amount for " + x.Denom
+		}
+		if !allowNeg && x.Amount.IsNegative() {
+			return "negative amount for " + x.Denom
+		}
+		if i > 0 && c[i-1].Denom >= x.Denom {
+			return "not strictly sorted at " + c[i-1].Denom + "," + x.Denom
+		}
+	}
+	return ""
+}
+
+func dcEq(c sdk.DecCoins, m dcmodel) bool {
+	n := 0
+	for _, a := range m {
+		if a.Sign() != 0 {
+			n++
+		}
+	}
+	if len(c) != n {
+		return false
+	}
+	for _, x := range c {
+		a, ok := m[x.Denom]
+		if !ok || a.Cmp(x.Amount.Int) != 0 {
+			return false
+		}
+	}
+	return true
+}
+
+func CheckDecCoins(r *sim.Rand, rep Reporter) {
+	A, ma := genDecCoins(r)
+	B, mb := genDecCoins(r)
+	sa, sb := dcStr(A), dcStr(B)
+	rep.Count("c18.deccoins.cases", 1)
+	get := func(m dcmodel, d string) *big.Int {
+		if a, ok := m[d]; ok {
+			return a
+		}
+		return new(big.Int)
+	}
+	all := map[string]bool{}
+	for d := range ma {
+		all[d] = true
+	}
+	for d := range mb {
+		all[d] = true
+	}
+	sum, diff := dcmodel{}, dcmodel{}
+	neg := false
+	for d := range all {
+		sum[d] = new(big.Int).Add(get(ma, d), get(mb, d))
+		diff[d] = new(big.Int).Sub(get(ma, d), get(mb, d))
+		if diff[d].Sign() < 0 {
+			neg = true
+		}
+	}
+	var got sdk.DecCoins
+	if p := catch(func() { got = A.Add(B) }); p != nil {
+		rep.Violate("C18", "deccoins-add-panic", fmt.Sprintf("%s.Add(%s) panicked: %v", sa, sb, p))
+	} else {
+		if c := dcCanonical(got, false); c != "" || !dcEq(got, sum) {
+			rep.Violate("C18", "deccoins-add-wrong", fmt.Sprintf("DecCoins %s.Add(%s) = %s (%s)", sa, sb, dcStr(got), c))
+		} else {
+			var back sdk.DecCoins
+			if pp := catch(func() { back = got.Sub(B) }); pp != nil || !dcEq(back, ma) || dcCanonical(back, false) != "" {
+				rep.Violate("C18", "deccoins-add-sub-inverse", fmt.Sprintf("DecCoins (%s+%s)-%s = %s (panic %v)", sa, sb, sb, dcStr(back), pp))
+			}
+		}
+	}
+	var sd sdk.DecCoins
+	var flag bool
+	if pp := catch(func() { sd, flag = A.SafeSub(B) }); pp != nil {
+		rep.Violate("C18", "deccoins-safesub-panic", fmt.Sprintf("%s.SafeSub(%s) panicked: %v", sa, sb, pp))
+	} else if flag != neg || !dcEq(sd, diff) || dcCanonical(sd, true) != "" {
+		rep.Violate("C18", "deccoins-safesub-wrong", fmt.Sprintf("DecCoins %s.SafeSub(%s) = %s, negative=%v (exact negative %v)", sa, sb, dcStr(sd), flag, neg))
+	}
+	pp := catch(func() { got = A.Sub(B) })
+	if neg != (pp != nil) {
+		rep.Violate("C18", "deccoins-sub-panic-rule", fmt.Sprintf("DecCoins %s.Sub(%s): negative result %v, panicked %v", sa, sb, neg, pp != nil))
+	} else if !neg && (!dcEq(got, diff) || dcCanonical(got, false) != "") {
+		rep.Violate("C18", "deccoins-sub-wrong", fmt.Sprintf("DecCoins %s.Sub(%s) = %s", sa, sb, dcStr(got)))
+	}
+	for _, d := range denoms {
+		if A.AmountOf(d).Int.Cmp(get(ma, d)) != 0 {
+			rep.Violate("C18", "deccoins-amountof", fmt.Sprintf("DecCoins %s.AmountOf(%s) = %v", sa, d, A.AmountOf(d)))
+		}
+	}
+	// truncation: whole part + change == original, change < 1 per denomination
+	var tc sdk.Coins
+	var ch sdk.DecCoins
+	if p := catch(func() { tc, ch = A.TruncateDecimal() }); p != nil {
+		rep.Violate("C18", "deccoins-truncate-panic", fmt.Sprintf("%s.TruncateDecimal panicked: %v", sa, p))
+	} else {
+		for d, a := range ma {
+			w := new(big.Int).Quo(a, prec)
+			c := new(big.Int).Rem(a, prec)
+			if tc.AmountOf(d).BigInt().Cmp(w) != 0 || ch.AmountOf(d).Int.Cmp(c) != 0 {
+				rep.Violate("C18", "deccoins-truncate-wrong", fmt.Sprintf("%s.TruncateDecimal: %s -> whole %v change %v", sa, d, tc.AmountOf(d), ch.AmountOf(d)))
+			}
+		}
+	}
+	if dcStr(A) != sa || dcStr(B) != sb {
+		rep.Violate("C18", "operand-mutated/DecCoins", fmt.Sprintf("operands changed: %s -> %s, %s -> %s", sa, dcStr(A), sb, dcStr(B)))
+	}
+}
